@@ -45,8 +45,19 @@ func describeRun(r jseng.RunResult) string {
 func checkBehaviour(t *fw.T, src string, layout string, cfgs []Cfg) {
 	wit := func() map[string]any { return map[string]any{"source": src, "layout": layout} }
 	var po ParseOut
-	if !t.Guard("parse", wit, func() { po = parse(src, Mode{}) }) {
+	// every third group of cases is parsed by a parser built from a long-lived builder that served other modes before
+	recycled := (t.Index/16)%3 == 2
+	if !t.Guard("parse", wit, func() {
+		if recycled {
+			po = parseRecycled(src, t.Index/16)
+		} else {
+			po = parse(src, Mode{})
+		}
+	}) {
 		return
+	}
+	if recycled {
+		t.Count("programs_parsed_by_a_long_lived_reconfigured_builder", 1)
 	}
 	type outp struct {
 		cfgs []Cfg
